@@ -212,12 +212,19 @@ class Run:
 
     def run_enums(self, binary):
         for i, en in enumerate(self.plan.get("enums", {}).get(self.tier, [])):
-            outdir = os.path.join(self.rundir, "enum-%d" % i)
-            extra = {k: str(v) for k, v in en.get("env", {}).items()}
-            p = Proc("enum", [binary, "-test.run", "^" + en["test"] + "$", "-test.timeout", "0", "-test.v"],
-                     self.env(outdir, extra), outdir)
-            rc = p.wait(time.time() + en.get("budget_s", 600))
-            self.collect(p, rc, "enumerator " + en["test"])
+            shards = en.get("shards", 1)
+            procs = []
+            for sh in range(shards):
+                outdir = os.path.join(self.rundir, "enum-%d" % i if shards == 1 else "enum-%d-%d" % (i, sh))
+                extra = {k: str(v) for k, v in en.get("env", {}).items()}
+                if shards > 1:
+                    extra["VERIF_ENUM_SHARD"], extra["VERIF_ENUM_SHARDS"] = str(sh), str(shards)
+                procs.append(Proc("enum", [binary, "-test.run", "^" + en["test"] + "$", "-test.timeout", "0", "-test.v"],
+                                  self.env(outdir, extra), outdir))
+            deadline = time.time() + en.get("budget_s", 600)
+            for sh, p in enumerate(procs):
+                rc = p.wait(deadline)
+                self.collect(p, rc, "enumerator " + en["test"] + (" shard %d" % sh if shards > 1 else ""))
 
     def run_campaigns(self, binaries):
         for ci, camp in enumerate(self.plan.get("campaigns", {}).get(self.tier, [])):
